@@ -185,7 +185,7 @@ package tchannel
 //@   property C20
 
 //@ iface RelayHost.Start(f relay.CallFrame, conn *relay.Conn) (call RelayCall, err error)
-//@   modifies allbut nadmit, admitted
+//@   modifies allbut nadmit, admitted, ndec, nends
 
 // When the relay host accepted the call but this connection no longer accepts
 // calls, the error frame sent to the caller is for the call's id and carries
@@ -193,6 +193,10 @@ package tchannel
 //@ func (r *Relayer) handleCallReq(f *lazyCallReq) (shouldRelease bool, err error)
 //@   label call-on-closing-connection-is-declined
 //@   atcall SendSystemError nadmit(r) == old(nadmit(r)) + 1 && admitted(r) == 0 ==> arg1 == old(f.Header.ID) && GetSystemErrorCode(arg3) == ErrCodeDeclined
+// (C09) a call that was admitted (pending count taken) and is then given up
+// before it is registered releases the pending count before End is reported
+//@   label admitted-call-given-up-releases-the-pending-count
+//@   atcall End nadmit(r) == old(nadmit(r)) + 1 && admitted(r) == 1 ==> ndec(r) == old(ndec(r)) + 1
 //@   property C20
 
 // ---------------------------------------------------------------------------
